@@ -5,6 +5,8 @@ import ViaModel.HashMap
 import ViaModel.Router
 import ViaModel.Auth
 import ViaModel.Encode
+import ViaModel.ReqRx
+import ViaModel.RespRx
 /-
   Line-protocol driver: executes the same operation scripts as `harness/rx_driver.cpp` on the
   model and prints the same canonical result lines.
@@ -25,9 +27,93 @@ def pairsOut (ps : List (Bytes × Bytes)) : String :=
   if ps.isEmpty then "-" else
     String.intercalate "," (ps.map fun (k, v) => hexOf k ++ ":" ++ hexOf v)
 
+inductive RxSt where
+  | none
+  | req (cfg : Cfg) (r : RR)
+  | resp (cfg : Cfg) (r : RS)
+
 structure St where
   router : Option (List Router.Route) := none
   hm : Option (HM.Map Int) := none
+  rx : RxSt := .none
+
+def insertSorted (p : Bytes × Bytes) : List (Bytes × Bytes) → List (Bytes × Bytes)
+  | [] => [p]
+  | q :: rest => if Router.bytesLt p.1 q.1 then p :: q :: rest else q :: insertSorted p rest
+
+def hdrsOut (fs : Fields) : String :=
+  pairsOut (fs.foldl (fun acc p => insertSorted p acc) [])
+
+def fieldsBytes (fs : Fields) : Nat := fs.foldl (fun n p => n + p.1.length + p.2.length) 0
+
+def chunkDetail (k : CK) : String :=
+  s!" sz={k.hdr.size} ext={hexOf k.hdr.ext} d={hexOf k.data} t={hdrsOut k.trailers.fields} last={b2s k.isLast}"
+
+def reqLine (d : Delivery) : String :=
+  let r := d.snapshot
+  let base := s!"rx={d.rx.name} used={d.used} code={r.code}"
+  match d.rx with
+  | .valid | .expectContinue =>
+    let q := r.request
+    base ++ s!" m={hexOf q.line.method} u={hexOf q.line.uri} v={hexOf [q.line.major, q.line.minor]} h={hdrsOut q.headers.fields} b={hexOf r.body} head={b2s r.isHead} chunked={b2s q.headers.isChunked} ka={b2s q.keepAlive}"
+  | .chunk => base ++ chunkDetail r.chunk
+  | _ => base
+
+def respLine (d : RDelivery) : String :=
+  let r := d.snapshot
+  let base := s!"rx={d.rx.name} used={d.used}"
+  match d.rx with
+  | .valid =>
+    let q := r.response
+    base ++ s!" st={q.line.status} r={hexOf q.line.reason} v={hexOf [q.line.major, q.line.minor]} h={hdrsOut q.headers.fields} b={hexOf r.body} chunked={b2s q.headers.isChunked} ka={b2s q.keepAlive}"
+  | .chunk => base ++ chunkDetail r.chunk
+  | _ => base
+
+def ckBytes (k : CK) : Nat :=
+  k.data.length + k.hdr.hexSize.length + k.hdr.ext.length + fieldsBytes k.trailers.fields +
+  k.trailers.field.name.length + k.trailers.field.value.length
+
+def cfgOf (ws : List String) : Cfg :=
+  { maxUri := natOf (argOf ws "a"), maxMethod := natOf (argOf ws "b"), maxHdrNum := natOf (argOf ws "hn"),
+    maxHdrLen := natOf (argOf ws "hl"), maxLine := natOf (argOf ws "ll"), maxWs := natOf (argOf ws "ws"),
+    strict := argOf ws "strict" == "1", maxContent := natOf (argOf ws "maxc" "1048576"),
+    maxChunk := natOf (argOf ws "maxk" "1048576"), translateHead := argOf ws "th" "1" == "1",
+    concatChunks := argOf ws "cc" "1" == "1" }
+
+/-- receiver operations -/
+def rxOp (st : St) (ws : List String) : Option (St × List String) :=
+  match ws with
+  | "rqnew" :: rest => some ({ st with rx := .req (cfgOf rest) {} }, ["ok"])
+  | "rsnew" :: rest => some ({ st with rx := .resp (cfgOf rest) {} }, ["ok"])
+  | [op, h] =>
+    if op == "feed" || op == "feed1" then
+      match unhex h, st.rx with
+      | some data, .req cfg r =>
+        let fuel := if op == "feed" then data.length + 3 else 1
+        let (r', rest, ds) := RR.readLoop cfg fuel r data []
+        let live := if op == "feed" && ds.length > data.length + 2 then ["abort:livelock"] else []
+        some ({ st with rx := .req cfg r' }, ds.map reqLine ++ live ++ [s!"read-done calls={ds.length} left={rest.length}"])
+      | some data, .resp cfg r =>
+        let fuel := if op == "feed" then data.length + 3 else 1
+        let (r', rest, ds) := RS.readLoop cfg fuel r data []
+        let live := if op == "feed" && ds.length > data.length + 2 then ["abort:livelock"] else []
+        some ({ st with rx := .resp cfg r' }, ds.map respLine ++ live ++ [s!"read-done calls={ds.length} left={rest.length}"])
+      | _, _ => some (st, ["bad-op"])
+    else none
+  | ["sizes"] =>
+    match st.rx with
+    | .req _ r =>
+      let q := r.request
+      let n := q.line.method.length + q.line.uri.length + fieldsBytes q.headers.fields +
+        q.headers.field.name.length + q.headers.field.value.length + r.body.length + ckBytes r.chunk
+      some (st, [s!"sizes retained={n}"])
+    | .resp _ r =>
+      let q := r.response
+      let n := q.line.reason.length + fieldsBytes q.headers.fields +
+        q.headers.field.name.length + q.headers.field.value.length + r.body.length + ckBytes r.chunk
+      some (st, [s!"sizes retained={n}"])
+    | .none => some (st, ["bad-op"])
+  | _ => none
 
 def hashFn (mode : Nat) (k : Nat) : Nat :=
   match mode with
@@ -170,9 +256,12 @@ def stepLine (st : St) (line : String) : St × List String :=
   | [] => (st, [])
   | ["case", id] => ({}, [s!"case {id}"])
   | _ =>
-    match pureOp st ws with
+    match rxOp st ws with
     | some r => r
-    | none => (st, ["bad-op"])
+    | none =>
+      match pureOp st ws with
+      | some r => r
+      | none => (st, ["bad-op"])
 
 partial def loop (h : IO.FS.Stream) (out : IO.FS.Stream) (st : St) : IO Unit := do
   let line ← h.getLine
